@@ -88,12 +88,15 @@ def hashFx (seed : UInt64) (i : Nat) : UInt8 × UInt8 :=
 
 /-- PCM that does not start with the ModPlug "ADPCM" tag -/
 def genPcm (n : Nat) : G Bytes := do
-  let style ← below 4
+  let style ← below 6
+  let k ← range 1 16
   let b ← match style with
     | 0 => genBytes n
     | 1 => pure ((List.range n).map fun i => u8 (i * 7))
     | 2 => listOf n (do return if (← chance 50) then 0x7f else 0x80)
-    | _ => listOf n (do return u8 ((← below 32) + 240))
+    | 3 => listOf n (do return u8 ((← below 32) + 240))
+    | 4 => pure (List.replicate n 0)                                  -- silence
+    | _ => do return (← genBytes (min k n)) ++ List.replicate (n - min k n) 0   -- short burst, silent tail
   return if b.take 5 = Mod.adpcmTag then (0 : UInt8) :: b.drop 1 else b
 
 /-- cheap deterministic PCM that differs per sample (`seed`) and per offset, including offsets that differ by
@@ -193,13 +196,26 @@ def gen (special : Nat) : G (Module × Opts × String) := do
 end GenMod
 
 
+/-- low-entropy PCM of `n` bytes: silence, a constant, a short burst with a silent tail, silence with rare small spikes
+(what trackers really store at the end of most samples; compresses to about one bit per sample) -/
+def genQuietPcm (n : Nat) : G Bytes := do
+  match (← below 4) with
+  | 0 => pure (List.replicate n 0)
+  | 1 => let c ← below 256; pure (List.replicate n (u8 c))
+  | 2 => let k ← range 1 16; let b ← genBytes (min k n); pure (b ++ List.replicate (n - min k n) 0)
+  | _ => listOf n (do
+      let spike ← chance 3
+      let v ← below 3
+      return if spike then u8 (v + 255) else 0)
+
 /-- shared: random PCM of `n` bytes in several shapes -/
 def genRawPcm (n : Nat) : G Bytes := do
-  match (← below 4) with
+  match (← below 6) with
   | 0 => genBytes n
   | 1 => pure ((List.range n).map fun i => u8 (i * 5 + 3))
   | 2 => listOf n (do return if (← chance 50) then 0x7f else 0x80)
-  | _ => listOf n (do return u8 ((← below 16) + 248))
+  | 3 => listOf n (do return u8 ((← below 16) + 248))
+  | _ => genQuietPcm n
 
 /-- shared: loop points for a sample of `len` frames: `(lps, lpe)` with `lps < lpe ≤ len` -/
 def genLoop (len : Nat) : G (Nat × Nat) := do
@@ -602,13 +618,26 @@ def gen (special : Nat) : G (Module × Opts × String) := do
   let maxLen := if mx then 5 else if size = 0 then 40 else if size = 1 then 400 else 3000
   let isSpecial := special = 3 ∨ special = 5 ∨ special = 6
   let nsmp := if isSpecial then max nsmp 5 else nsmp
+  let nsmp := if special = 4 then max nsmp 2 else nsmp
   let pk5 ← below 3
   let nsmp := if mx then [99, 100, 255].getD pk5 99 else nsmp
   let slots ← (List.range nsmp).mapM fun i => genSlot i maxLen
   let bseed ← below 1000
   let slots := if isSpecial then bigSlots special bseed slots else slots
+  -- class 4: a highly compressible sample through the IT 2.14 / 2.15 compressed path, stored last in the file
+  -- (8 / 16 bit, mono / stereo, one or two blocks): the compressed stream is about one bit per sample
+  let quiet := special = 4
+  let qflg := (if (← chance 60) then F16BIT else 0) + (if (← chance 40) then FSTEREO else 0)
+  let qblk := if qflg &&& F16BIT ≠ 0 then 0x4000 else 0x8000
+  let qlen ← if (← chance 12) then range (qblk + 50) (qblk + 400) else if (← chance 20) then range 2 70 else range 70 2500
+  let qpcm ← genQuietPcm (if quiet then qlen * frameBytes qflg else 0)
+  let qname ← genName 25
+  let slots := if quiet then
+      slots.take (nsmp - 1) ++ [({ name := qname, subs := [{ sid := nsmp - 1, vol := 48, pan := (128 : Nat), xpo := 0, fin := 0 }] },
+                                 { name := [], len := qlen, lps := 0, lpe := 0, flg := qflg, pcm := qpcm })]
+    else slots
   let wseed ← next
-  let wmode ← below 3
+  let wmode ← below 4
   let compRate ← below 3
   let name ← genName 25
   let spd ← pickB spdSet 1 255
@@ -667,11 +696,13 @@ def gen (special : Nat) : G (Module × Opts × String) := do
                     comp := fun i =>
                       if special = 3 then [2, 1, 2, 2].getD i (hashNat wseed (i + 40) % 3)
                       else if special = 5 ∨ special = 6 then (if i = 0 then 0 else hashNat wseed (i + 40) % 3)
+                      else if quiet ∧ i = nsmp - 1 then 1 + hashNat wseed (i + 40) % 2
                       else if compRate = 0 then 0 else if compRate = 1 then hashNat wseed (i + 40) % 3
                       else 1 + hashNat wseed (i + 40) % 2,
                     wsel := fun i pos =>
                       let h := hashNat wseed (i * 100003 + pos)
-                      if wmode = 0 then 0 else if wmode = 1 then (if h % 5 = 0 then hashNat wseed (pos + 17) % 17 + 1 else 0)
+                      if (quiet ∧ i = nsmp - 1) ∨ wmode = 3 then (if h % 16 = 0 then 2 else 1)    -- narrowest codes wherever they fit
+                      else if wmode = 0 then 0 else if wmode = 1 then (if h % 5 = 0 then hashNat wseed (pos + 17) % 17 + 1 else 0)
                       else 1 + h % 7,
                     c5spd := rateOf sseed,
                     nullEmpty := nullEmpty,
